@@ -570,6 +570,7 @@ def _axioms_of(f):
             need_ground = True
             t = args[0]
             ax.append(z3.Implies(smt.is_VNone(t), e == T("NoneType")))
+            ax.append(z3.Implies(smt.is_VAbsent(t), e == -1))      # "no value": not a Python object, has no type
             ax.append(z3.Implies(smt.is_VBool(t), e == T("bool")))
             ax.append(z3.Implies(smt.is_VInt(t), e == T("int")))
             ax.append(z3.Implies(smt.is_VStr(t), e == T("str")))
